@@ -883,6 +883,8 @@ class Sem:
             yield from self._visit(n["e"], pc, frame, in_closure, in_loop)
             return
         if k == "SItem":
+            # nested items (impls, fns) are not evaluated, but rules ask under which arm they are declared
+            yield Site(n, pc, frame, in_closure, in_loop)
             return
         yield Site(n, pc, frame, in_closure, in_loop)
         if k == "If":
@@ -1461,7 +1463,7 @@ def nested_variants(pc, pred, enum_name):
     when the variant is nested in the alternative (`Option::Some(SchemeItem::Field)`, `Result::Ok(LhsValue::Map)`);
     None when unrestricted"""
     best = None
-    rx = re.compile(re.escape(enum_name) + r"::(\w+)")
+    rx = re.compile(r"(?<![\w])" + re.escape(enum_name) + r"::(\w+)")
     for a, pol in is_literals(pc):
         if not pol:
             continue
@@ -1478,3 +1480,10 @@ def nested_variants(pc, pred, enum_name):
             if vs is not None:
                 best = vs if best is None else (best & vs)
     return best
+
+
+def sem_walk(crate, h, **kw):
+    """drop-in for lib.walk_arms over a whole function: yields (node, Site); lib.arm_variants accepts the Site"""
+    S = Sem(crate, h, **kw)
+    for x in S.sites():
+        yield x.node, x
